@@ -235,20 +235,21 @@ func rulePolicy(cx *Ctx) {
 			for _, e := range o.S.trace {
 				if q, n, ok := dequeCall(e, "UpdateNode"); ok && n == "param:n" {
 					transplants++
-					// guarded by Contains(old) == true on the same deque
+					// guarded by Contains(old) == true (or NotContains(old) == false) on the same deque
 					g := false
-					for a, v := range o.S.preds {
-						if strings.HasPrefix(a, "res:Contains#") && v {
-							g = true
-						}
-					}
-					containsSame := false
 					for _, c := range o.S.trace {
 						if cq, cn, ok := dequeCall(c, "Contains"); ok && cq == q && cn == "param:old" {
-							containsSame = true
+							if v, k := predOf(o, c.Res); k && v {
+								g = true
+							}
+						}
+						if cq, cn, ok := dequeCall(c, "NotContains"); ok && cq == q && cn == "param:old" {
+							if v, k := predOf(o, c.Res); k && !v {
+								g = true
+							}
 						}
 					}
-					if !g || !containsSame {
+					if !g {
 						guarded = false
 					}
 				}
@@ -382,7 +383,12 @@ func rulePolicy(cx *Ctx) {
 			allInstrs(fn, func(in ssa.Instruction) {
 				if st, ok := in.(*ssa.Store); ok && sameField(fieldOf(st.Addr), fv) {
 					_, ok := allowed[funcName(outermost(fn))]
-					cx.R.Check(ok, rAcct, funcName(fn), "writer of "+field, cx.P.where(in), "the running total "+field+" is written only by its known handlers")
+					if !ok {
+						// a helper split off a known handler: every call chain into it starts in one (its effect is
+						// then part of that handler's path summaries)
+						ok = onlyWithinAny(cx, outermost(fn), allowed, 0)
+					}
+					cx.R.Check(ok, rAcct, funcName(fn), "writer of "+field, cx.P.where(in), "the running total "+field+" is written only by its known handlers (or helpers called only from them)")
 				}
 			})
 		}
@@ -655,4 +661,27 @@ func stepsInOrder(fn *ssa.Function, memo map[*ssa.Function]int, depth int, steps
 		}
 	}
 	return true
+}
+
+// onlyWithinAny: f is one of the named functions, or a helper whose every call site in the module lies in one.
+func onlyWithinAny(cx *Ctx, f *ssa.Function, names map[string]string, depth int) bool {
+	if _, ok := names[funcName(f)]; ok {
+		return true
+	}
+	if depth > 3 || addressTaken(cx, f) {
+		return false
+	}
+	sites := 0
+	ok := true
+	for _, g := range cx.P.ModuleFuncs() {
+		allInstrs(g, func(in ssa.Instruction) {
+			if isCallTo(in, f) {
+				sites++
+				if !onlyWithinAny(cx, outermost(g), names, depth+1) {
+					ok = false
+				}
+			}
+		})
+	}
+	return ok && sites > 0
 }
